@@ -1055,7 +1055,7 @@ func init() {
 		ftargets := full().allPaths()
 		for _, kind := range pkAliasKinds {
 			kind := kind
-			for ci, ch := range chunkPaths(ftargets, 24) {
+			for ci, ch := range chunkPaths(ftargets, 72) {
 				ch := ch
 				mk := "def"
 				if kind == "direct" {
